@@ -1,11 +1,14 @@
 import WhatwgUrl.Impl.Canon
 import WhatwgUrl.Spec.Url
+import WhatwgUrl.Proofs.Percent
+import WhatwgUrl.Generated.Facts
+import WhatwgUrl.Proofs.Ranges
 /-
   C10 — percent-encode sets match the standard; encode/decode obey their laws.
   Property theorems only; helper lemmas are local `private theorem`s or live in Proofs/.
 -/
 namespace WhatwgUrl.Props.C10
-open WhatwgUrl WhatwgUrl.Impl
+open WhatwgUrl WhatwgUrl.Impl WhatwgUrl.Proofs.Percent
 
 /-- lift a check over the 128 ASCII code points to all code points: above 0x7E both sides are `true` -/
 private theorem lift (p : PSet) (f : Nat → Bool) (hp : p.allBelow ≤ 0x80)
@@ -39,5 +42,275 @@ theorem C10_tables :
 theorem C10_forbidden_tables :
     (∀ c, forbiddenHost c = Spec.forbiddenHostCp c) ∧ (∀ c, forbiddenDomain c = Spec.forbiddenDomainCp c) := by
   constructor <;> intro c <;> simp [forbiddenHost, forbiddenDomain, Spec.forbiddenHostCp, Spec.forbiddenDomainCp]
+
+/-! ### 1. deriving a set (`Set(b)` / `Clear(b)`) is functional and has exactly the documented membership -/
+
+/-- `Set(b)`: the derived set contains what the source contains, plus `b` (for every `b`, `c`) -/
+theorem C10_derive_set (p : PSet) (b c : Nat) : (p.set b).has c = (p.has c || c == b) := set_has p b c
+
+/-- `Clear(b)`: the derived set contains what the source contains minus `b` — except that `b` stays a member when it is
+    below `allBelow` or above 0x7E (membership there does not come from the bitset, so `Clear` cannot remove it) -/
+theorem C10_derive_clear (p : PSet) (b c : Nat) :
+    (p.clear b).has c = (p.has c && (c != b || c < p.allBelow || c > 0x7E)) := by
+  rw [clear_has]
+  simp only [PSet.has]
+  cases decide (c < p.allBelow) <;> cases decide (c > 0x7E) <;> cases p.bits.testBit c <;> cases (c != b) <;> rfl
+
+/-- the same in the other closed form: bitset membership loses exactly `b` -/
+theorem C10_derive_clear' (p : PSet) (b c : Nat) :
+    (p.clear b).has c = (c < p.allBelow || c > 0x7E || (p.bits.testBit c && c != b)) := clear_has p b c
+
+/-- deriving does not touch the threshold; `PSet` values are immutable, so the source is trivially unchanged -/
+theorem C10_derive_source_untouched (p : PSet) (b : Nat) :
+    (p.set b).allBelow = p.allBelow ∧ (p.clear b).allBelow = p.allBelow := ⟨rfl, rfl⟩
+
+/-- `Set` of several code points -/
+theorem C10_derive_setAll (p : PSet) (cs : List Nat) (c : Nat) : (p.setAll cs).has c = (p.has c || cs.contains c) := by
+  unfold PSet.setAll
+  induction cs generalizing p with
+  | nil => simp
+  | cons b t ih =>
+    rw [List.foldl_cons, ih, set_has, List.contains_cons, Bool.or_assoc]
+
+/-- `Clear` of several code points -/
+theorem C10_derive_clearAll (p : PSet) (cs : List Nat) (c : Nat) :
+    (p.clearAll cs).has c = (c < p.allBelow || c > 0x7E || (p.bits.testBit c && !cs.contains c)) := by
+  unfold PSet.clearAll
+  induction cs generalizing p with
+  | nil => simp [PSet.has] <;> rfl
+  | cons b t ih =>
+    rw [List.foldl_cons, ih, clear_allBelow, clear_testBit, List.contains_cons, Bool.not_or, Bool.and_assoc]
+    rfl
+
+example : (pathSet.set 0x25).has 0x25 = true ∧ pathSet.has 0x25 = false := by decide
+example : (pathSet.clear 0x3f).has 0x3f = false ∧ pathSet.has 0x3f = true := by decide
+/-- `Clear` cannot remove a code point that is a member through the threshold / the non-ASCII rule -/
+example : (pathSet.clear 0x1f).has 0x1f = true ∧ (pathSet.clear 0xe9).has 0xe9 = true := by decide
+
+/-! ### 2. shape of the encoder -/
+
+/-- '%' and the 22 hex digit characters are not in the set (so escapes produced by the encoder are stable) -/
+def EscStable (set : Nat → Bool) : Prop := set 0x25 = false ∧ ∀ c, isHexN c = true → set c = false
+/-- no hex digit character is in the set -/
+def HexFree (set : Nat → Bool) : Prop := ∀ c, isHexN c = true → set c = false
+
+/-- a check over the 128 ASCII code points suffices for `HexFree` -/
+theorem HexFree.of_fin (set : Nat → Bool) (h : ∀ i : Fin 128, isHexN i.val = true → set i.val = false) :
+    HexFree set := fun c hc => h ⟨c, isHexN_lt hc⟩ hc
+
+theorem EscStable.of_fin (set : Nat → Bool) (hp : set 0x25 = false)
+    (h : ∀ i : Fin 128, isHexN i.val = true → set i.val = false) : EscStable set := ⟨hp, HexFree.of_fin set h⟩
+
+/-- every code point of the set becomes the escapes of its UTF-8 bytes; every other code point (in particular `%`,
+    i.e. existing escapes, when `%` is not in the set) is copied -/
+theorem C10_encode_shape (set : Nat → Bool) (s : Str) :
+    Spec.utf8PercentEncode set s =
+      s.flatMap fun c => if set c.toNat then (utf8Char c).flatMap Spec.percentEncodeByte else [c] := by
+  unfold Spec.utf8PercentEncode
+  congr 1
+  funext c
+  unfold Spec.utf8PercentEncodeCp
+  cases set c.toNat <;> rfl
+
+/-- an escape is `%` and two upper-case hex digits -/
+theorem C10_escape_shape (x : UInt8) :
+    Spec.percentEncodeByte x = ['%', bc (hexUpper (x.toNat / 16)), bc (hexUpper (x.toNat % 16))] ∧
+    isHexN (bc (hexUpper (x.toNat / 16))).toNat = true ∧ isHexN (bc (hexUpper (x.toNat % 16))).toNat = true ∧
+    ¬ isLowerN (bc (hexUpper (x.toNat / 16))).toNat ∧ ¬ isLowerN (bc (hexUpper (x.toNat % 16))).toNat := by
+  have hx := x.toNat_lt
+  have a := hexDigit16 ⟨x.toNat / 16, by omega⟩
+  have b := hexDigit16 ⟨x.toNat % 16, by omega⟩
+  refine ⟨rfl, a.2.2.2.2, b.2.2.2.2, ?_, ?_⟩
+  · simp [a.2.2.2.1]
+  · simp [b.2.2.2.1]
+
+example : Spec.utf8PercentEncode Spec.pathSet "a b%é?".toList = "a%20b%%C3%A9%3F".toList := by decide +kernel
+
+/-! ### 3. nothing of the set is left; idempotence -/
+
+private theorem mem_escape {c : Char} {x : UInt8} (h : c ∈ Spec.percentEncodeByte x) :
+    c.toNat = 0x25 ∨ isHexN c.toNat = true := by
+  obtain ⟨e, h1, h2, _⟩ := C10_escape_shape x
+  rw [e] at h
+  simp only [List.mem_cons, List.not_mem_nil, or_false] at h
+  rcases h with rfl | rfl | rfl
+  · left; rfl
+  · right; exact h1
+  · right; exact h2
+
+theorem C10_nothing_left (set : Nat → Bool) (h : EscStable set) (s : Str) :
+    ∀ c ∈ Spec.utf8PercentEncode set s, set c.toNat = false := by
+  intro c hc
+  rw [C10_encode_shape, List.mem_flatMap] at hc
+  obtain ⟨c0, _, hc⟩ := hc
+  cases hs : set c0.toNat
+  · simp only [hs, Bool.false_eq_true, ↓reduceIte, List.mem_singleton] at hc
+    rw [hc]; exact hs
+  · simp only [hs, ↓reduceIte, List.mem_flatMap] at hc
+    obtain ⟨x, _, hx⟩ := hc
+    rcases mem_escape hx with e | e
+    · rw [e]; exact h.1
+    · exact h.2 _ e
+
+/-- a string without code points of the set is a fixed point of the encoder -/
+theorem C10_encode_fixed (set : Nat → Bool) (t : Str) (h : ∀ c ∈ t, set c.toNat = false) :
+    Spec.utf8PercentEncode set t = t := by
+  induction t with
+  | nil => rfl
+  | cons c t ih =>
+    have hc := h c (by simp)
+    have ht := ih (fun d hd => h d (by simp [hd]))
+    simp only [Spec.utf8PercentEncode, List.flatMap_cons] at ht ⊢
+    rw [ht]
+    simp [Spec.utf8PercentEncodeCp, hc]
+
+theorem C10_idempotent (set : Nat → Bool) (h : EscStable set) (s : Str) :
+    Spec.utf8PercentEncode set (Spec.utf8PercentEncode set s) = Spec.utf8PercentEncode set s :=
+  C10_encode_fixed set _ (C10_nothing_left set h s)
+
+/-- the hypothesis marks the boundary of the law (it is not a defect): when a hex digit is in the set, no encoder that
+    produces `%XX` escapes can be idempotent: 'J' becomes `%4A`, whose '4' is then encoded again -/
+example :
+    let set : Nat → Bool := fun c => c == 0x4A || c == 0x34
+    Spec.utf8PercentEncode set ['J'] = "%4A".toList ∧
+    Spec.utf8PercentEncode set (Spec.utf8PercentEncode set ['J']) = "%%34A".toList ∧
+    Spec.utf8PercentEncode set (Spec.utf8PercentEncode set ['J']) ≠ Spec.utf8PercentEncode set ['J'] := by
+  decide +kernel
+
+/-- same when `%` is in the set (e.g. the component set): existing escapes are escaped again -/
+example : Spec.utf8PercentEncode Spec.componentSet (Spec.utf8PercentEncode Spec.componentSet ['%']) ≠
+    Spec.utf8PercentEncode Spec.componentSet ['%'] := by decide +kernel
+
+/-! ### 4. decoding inverts / commutes with encoding (byte level) -/
+
+/-- with `%` in the set (and the hex digits outside), percent-decoding the encoder's output gives back the UTF-8 bytes
+    of the input, for every scalar value string -/
+theorem C10_decode_inverts (set : Nat → Bool) (hp : set 0x25 = true) (hh : HexFree set) (s : Str) :
+    Spec.percentDecode (utf8 (Spec.utf8PercentEncode set s)) = utf8 s := by
+  rw [utf8_encode]
+  exact decode_inverts set hp s
+
+/-- `HexFree` is not even needed for `C10_decode_inverts`: an encoded hex digit is an escape, and escapes decode -/
+theorem C10_decode_inverts' (set : Nat → Bool) (hp : set 0x25 = true) (s : Str) :
+    Spec.percentDecode (utf8 (Spec.utf8PercentEncode set s)) = utf8 s := by
+  rw [utf8_encode]
+  exact decode_inverts set hp s
+
+/-- with `%` outside the set (existing escapes are kept) and the hex digits outside, encoding does not change what
+    percent-decoding yields -/
+theorem C10_decode_same (set : Nat → Bool) (hp : set 0x25 = false) (hh : HexFree set) (s : Str) :
+    Spec.percentDecode (utf8 (Spec.utf8PercentEncode set s)) = Spec.percentDecode (utf8 s) := by
+  rw [utf8_encode]
+  exact decode_same_aux set hp hh s.length s (Nat.le_refl _)
+
+/-- `HexFree` IS needed for `C10_decode_same`: with '4' in the set, the literal escape `%41` ("A") is torn apart:
+    the encoder turns `%41` into `%%341`, which decodes to the three bytes `%41` instead of the byte 0x41.
+    (`Spec.percentDecode` is compiled by well-founded recursion, so it is evaluated with `simp`, not `decide`.) -/
+example :
+    (fun c : Nat => c == 0x34) 0x25 = false ∧
+    Spec.percentDecode (utf8 (Spec.utf8PercentEncode (fun c => c == 0x34) "%41".toList)) = lit "%41" ∧
+    Spec.percentDecode (utf8 "%41".toList) = lit "A" := by
+  refine ⟨by decide, ?_, ?_⟩
+  · rw [show utf8 (Spec.utf8PercentEncode (fun c => c == 0x34) "%41".toList) = [0x25, 0x25, 0x33, 0x34, 0x31] by decide,
+      show lit "%41" = [0x25, 0x34, 0x31] by decide]
+    simp [Spec.percentDecode, isHexN, isDigitN, hexVal]
+  · rw [show utf8 "%41".toList = [0x25, 0x34, 0x31] by decide, show lit "A" = [0x41] by decide]
+    simp [Spec.percentDecode, isHexN, isDigitN, hexVal]
+
+theorem componentSet_hexFree : Spec.componentSet 0x25 = true ∧ HexFree Spec.componentSet :=
+  ⟨by decide, HexFree.of_fin _ (by decide)⟩
+theorem urlencodedSet_hexFree : Spec.urlencodedSet 0x25 = true ∧ HexFree Spec.urlencodedSet :=
+  ⟨by decide, HexFree.of_fin _ (by decide)⟩
+
+/-- non-vacuity of `C10_decode_inverts`: the standard's component set -/
+example (s : Str) : Spec.percentDecode (utf8 (Spec.utf8PercentEncode Spec.componentSet s)) = utf8 s :=
+  C10_decode_inverts _ componentSet_hexFree.1 componentSet_hexFree.2 s
+example : utf8 (Spec.utf8PercentEncode Spec.componentSet "a%4é %".toList) = lit "a%254%C3%A9%20%25" := by decide +kernel
+example : Spec.percentDecode (lit "a%254%C3%A9%20%25") = utf8 "a%4é %".toList := by
+  rw [show lit "a%254%C3%A9%20%25" =
+      [0x61, 0x25, 0x32, 0x35, 0x34, 0x25, 0x43, 0x33, 0x25, 0x41, 0x39, 0x25, 0x32, 0x30, 0x25, 0x32, 0x35] by decide,
+    show utf8 "a%4é %".toList = [0x61, 0x25, 0x34, 0xC3, 0xA9, 0x20, 0x25] by decide]
+  simp [Spec.percentDecode, isHexN, isDigitN, hexVal]
+
+/-! ### 5. the Go codec is the standard's (default configuration) -/
+
+theorem C10_codec_conforms_encode (tr : PSet) (s : Bytes) :
+    percentEncodeString Cfg.default tr s = utf8 (Spec.utf8PercentEncode tr.has (goRunes s)) := by
+  rw [utf8_encode]
+  exact pesRunes_default tr (goRunes s)
+
+theorem C10_codec_conforms_decode (s : Bytes) : decodePercent Cfg.default s = Spec.percentDecode s :=
+  decodePercent_default s
+
+theorem C10_named_sets_ok :
+    EscStable fragmentSet.has ∧ EscStable querySet.has ∧ EscStable specialQuerySet.has ∧ EscStable pathSet.has ∧
+    EscStable userinfoSet.has ∧ EscStable c0Set.has := by
+  refine ⟨?_, ?_, ?_, ?_, ?_, ?_⟩ <;> exact EscStable.of_fin _ (by decide) (by decide)
+
+/-- non-vacuity of `C10_nothing_left` / `C10_idempotent` / `C10_decode_same`: every named set of the code -/
+example (s : Str) : Spec.utf8PercentEncode pathSet.has (Spec.utf8PercentEncode pathSet.has s) =
+    Spec.utf8PercentEncode pathSet.has s := C10_idempotent _ C10_named_sets_ok.2.2.2.1 s
+example (s : Str) : Spec.percentDecode (utf8 (Spec.utf8PercentEncode pathSet.has s)) = Spec.percentDecode (utf8 s) :=
+  C10_decode_same _ C10_named_sets_ok.2.2.2.1.1 C10_named_sets_ok.2.2.2.1.2 s
+example (s : Str) : ∀ c ∈ Spec.utf8PercentEncode pathSet.has s, pathSet.has c.toNat = false :=
+  C10_nothing_left _ C10_named_sets_ok.2.2.2.1 s
+/-- non-vacuity of `C10_encode_fixed` -/
+example : ∀ c ∈ "a%41/b".toList, pathSet.has c.toNat = false := by decide
+
+/-- consequence for the Go code: decoding (Go) what the Go encoder produced for a named set yields what decoding the
+    (rune-wise re-encoded) input yields -/
+theorem C10_go_decode_same (tr : PSet) (h : EscStable tr.has) (s : Bytes) :
+    decodePercent Cfg.default (percentEncodeString Cfg.default tr s) =
+      decodePercent Cfg.default (utf8 (goRunes s)) := by
+  rw [C10_codec_conforms_decode, C10_codec_conforms_decode, C10_codec_conforms_encode]
+  exact C10_decode_same _ h.1 h.2 _
+
+example (s : Bytes) : decodePercent Cfg.default (percentEncodeString Cfg.default userinfoSet s) =
+    decodePercent Cfg.default (utf8 (goRunes s)) := C10_go_decode_same _ C10_named_sets_ok.2.2.2.2.1 s
+
+/-! concrete evaluations (the input is UTF-8: `lit` is for ASCII literals only) -/
+example : percentEncodeString {} pathSet (utf8 "a b%é?".toList) = lit "a%20b%%C3%A9%3F" := by decide +kernel
+example : percentEncodeString Cfg.default userinfoSet (utf8 "u:p@/%41".toList) = lit "u%3Ap%40%2F%41" := by decide +kernel
+example : decodePercent {} (lit "a%20b%%C3%A9%3F%4") = utf8 "a b%é?%4".toList := by
+  rw [show lit "a%20b%%C3%A9%3F%4" =
+      [0x61, 0x25, 0x32, 0x30, 0x62, 0x25, 0x25, 0x43, 0x33, 0x25, 0x41, 0x39, 0x25, 0x33, 0x46, 0x25, 0x34] by decide,
+    show utf8 "a b%é?%4".toList = [0x61, 0x20, 0x62, 0x25, 0xC3, 0xA9, 0x3F, 0x25, 0x34] by decide]
+  simp [decodePercent, isHexN, isDigitN, hexVal]
+/-- an ill-formed byte (0xE9 alone) is read by Go as U+FFFD and encoded as such -/
+example : percentEncodeString {} pathSet [0x61, 0xE9] = lit "a%EF%BF%BD" := by decide +kernel
+/-- a `%` that does not start an escape is left alone in the default configuration -/
+example : percentEncodeString {} pathSet (lit "%zz%4") = lit "%zz%4" := by decide +kernel
+
+
+/-! ### the tables regenerated from the Go code (T1): executed membership for all scalar values -/
+
+/-- each named set of the Go package — dumped by executing `RuneShouldBeEncoded` on every code point of the freshly built
+    package — contains exactly the code points the standard lists, for every scalar value -/
+theorem C10_generated_tables :
+    (∀ c, c ≤ 0x10ffff → inRanges Generated.set_c0 c = Spec.c0ControlSet c) ∧
+    (∀ c, c ≤ 0x10ffff → inRanges Generated.set_fragment c = Spec.fragmentSet c) ∧
+    (∀ c, c ≤ 0x10ffff → inRanges Generated.set_query c = Spec.querySet c) ∧
+    (∀ c, c ≤ 0x10ffff → inRanges Generated.set_specialQuery c = Spec.specialQuerySet c) ∧
+    (∀ c, c ≤ 0x10ffff → inRanges Generated.set_path c = Spec.pathSet c) ∧
+    (∀ c, c ≤ 0x10ffff → inRanges Generated.set_userinfo c = Spec.userinfoSet c) := by
+  refine ⟨?_, ?_, ?_, ?_, ?_, ?_⟩
+  · exact inRanges_lift _ _ (by decide) (by intro c hc; simp [Spec.c0ControlSet, hc]) (by decide)
+  · exact inRanges_lift _ _ (by decide) (by intro c hc; simp [Spec.fragmentSet, Spec.c0ControlSet, hc]) (by decide)
+  · exact inRanges_lift _ _ (by decide) (by intro c hc; simp [Spec.querySet, Spec.c0ControlSet, hc]) (by decide)
+  · exact inRanges_lift _ _ (by decide) (by intro c hc; simp [Spec.specialQuerySet, Spec.querySet, Spec.c0ControlSet, hc]) (by decide)
+  · exact inRanges_lift _ _ (by decide) (by intro c hc; simp [Spec.pathSet, Spec.querySet, Spec.c0ControlSet, hc]) (by decide)
+  · exact inRanges_lift _ _ (by decide) (by intro c hc; simp [Spec.userinfoSet, Spec.pathSet, Spec.querySet, Spec.c0ControlSet, hc]) (by decide)
+
+/-- … and the model's tables are those of the code: same ranges for every set the model names (so theorems about the model's
+    sets are theorems about the code's sets) -/
+theorem C10_model_tables_are_generated :
+    (∀ c, c ≤ 0x10ffff → inRanges Generated.set_c0 c = c0Set.has c) ∧ (∀ c, c ≤ 0x10ffff → inRanges Generated.set_c0sp c = c0OrSpaceSet.has c) ∧
+    (∀ c, c ≤ 0x10ffff → inRanges Generated.set_fragment c = fragmentSet.has c) ∧ (∀ c, c ≤ 0x10ffff → inRanges Generated.set_query c = querySet.has c) ∧
+    (∀ c, c ≤ 0x10ffff → inRanges Generated.set_specialQuery c = specialQuerySet.has c) ∧ (∀ c, c ≤ 0x10ffff → inRanges Generated.set_path c = pathSet.has c) ∧
+    (∀ c, c ≤ 0x10ffff → inRanges Generated.set_userinfo c = userinfoSet.has c) ∧ (∀ c, c ≤ 0x10ffff → inRanges Generated.set_host c = hostSet.has c) ∧
+    (∀ c, c ≤ 0x10ffff → inRanges Generated.set_laxPath c = laxPathSet.has c) ∧ (∀ c, c ≤ 0x10ffff → inRanges Generated.set_laxQuery c = laxQuerySet.has c) ∧
+    (∀ c, c ≤ 0x10ffff → inRanges Generated.set_repeatedQuery c = repeatedQuerySet.has c) := by
+  refine ⟨?_, ?_, ?_, ?_, ?_, ?_, ?_, ?_, ?_, ?_, ?_⟩ <;>
+    exact inRanges_lift _ _ (by decide) (by intro c hc; simp [PSet.has, hc]) (by decide)
 
 end WhatwgUrl.Props.C10
